@@ -294,7 +294,9 @@ inductive Ev
   /-- a connection is made and/or lost (`HAPServerProtocol.connection_made` / `connection_lost` →
       `AccessoryDriver.connection_lost`) -/
   | connLost
-  /-- any other request on an unverified connection (answered 401 / 4xx, no effect here) -/
+  /-- any other request on an unverified connection (answered 401 / 4xx, no effect here); also the
+      application starting / stopping the same driver object (`async_start` / `async_stop` touch neither the
+      verifier, nor the setup code, nor the pairings) -/
   | other
   /-- the accessory becomes unpaired again: the last admin pairing is removed (`POST /pairings` remove →
       `AccessoryDriver.unpair` → `State.remove_paired_client`, which clears every pairing with the last
